@@ -1,0 +1,40 @@
+//go:build verif
+// +build verif
+
+package verifbridge
+
+import "github.com/bytedance/sonic/internal/verifhook"
+
+// HookNames lists the schedule points compiled into the library.
+func HookNames() []string { return verifhook.Names[:] }
+
+// HookCounts reports how often each schedule point has been reached.
+func HookCounts() map[string]uint64 {
+	m := map[string]uint64{}
+	for i, n := range verifhook.Names {
+		m[n] = verifhook.Count(i)
+	}
+	return m
+}
+
+// HookSet configures the action of a schedule point: "" (none), "yield" or
+// "sleep" (argMicros), on every `every`-th arrival.
+func HookSet(name, action string, argMicros, every uint32) bool {
+	for i, n := range verifhook.Names {
+		if n == name {
+			a := uint32(verifhook.ActNone)
+			switch action {
+			case "yield":
+				a = verifhook.ActYield
+			case "sleep":
+				a = verifhook.ActSleep
+			}
+			verifhook.Set(i, a, argMicros, every)
+			return true
+		}
+	}
+	return false
+}
+
+// HookReset switches every action off.
+func HookReset() { verifhook.Reset() }
